@@ -74,10 +74,16 @@ func (wf *WALFileType) Replay(dryRun bool) error {
 				return fmt.Errorf("seek error: %w", err)
 			}
 			tgID, tgSerialized, err := wf.readTGData()
-			tgData[tgID] = tgSerialized
 			if continueRead = fullRead(err); !continueRead {
 				break // Break out of switch
 			}
+			if err != nil {
+				// the record failed its checksum: it is never replayed, and it must not be
+				// booked (under TGID 0) as if it had been read
+				log.Warn(fmt.Sprintf("skipping damaged TG data at offset %d: %v", offset, err))
+				break // Break out of switch
+			}
+			tgData[tgID] = tgSerialized
 			// give up Replay if there is already a TG data location in this WAL
 			if _, ok := offsetTGDataInWAL[tgID]; ok {
 				log.Error(io.GetCallerFileContext(0) + ": Duplicate TG Data in WAL")
@@ -261,6 +267,7 @@ const (
 	// see /docs/durable_writes_design.txt for definition.
 	tgLenBytes    = 8
 	tgIDBytes     = 8
+	wtCountBytes  = 8
 	checkSumBytes = 16
 )
 
@@ -272,8 +279,17 @@ func (wf *WALFileType) readTGData() (tgID int64, tgSerialized []byte, err error)
 	}
 	tgLen := io.ToInt64(tgLenSerialized)
 
-	if !sanityCheckValue(wf.FilePtr, tgLen) {
-		return 0, nil, errors.New(io.GetCallerFileContext(0) + fmt.Sprintf(": Insane TG Length: %d", tgLen))
+	// A TG holds at least its ID and WT count. A length outside the sane range means the record
+	// is torn or damaged; message boundaries are lost behind it, so the scan ends here.
+	if tgLen < tgIDBytes+wtCountBytes || !sanityCheckValue(wf.FilePtr, tgLen) {
+		return 0, nil, wal.ShortReadError(io.GetCallerFileContext(0) + fmt.Sprintf(": Insane TG Length: %d", tgLen))
+	}
+
+	// the record cannot be longer than what is left of the file (avoid allocating a garbage length)
+	if cur, err2 := wf.FilePtr.Seek(0, goio.SeekCurrent); err2 == nil {
+		if fstat, err3 := wf.FilePtr.Stat(); err3 == nil && tgLen > fstat.Size()-cur {
+			return 0, nil, wal.ShortReadError(io.GetCallerFileContext(0) + ":TG Length exceeds file size")
+		}
 	}
 
 	// Read the data
